@@ -162,6 +162,8 @@ def check_gtf_duplicates(gtf):
     exon_transcript_ids = set()
     # gene id -> sequences it occurs on, in order of appearance
     gene_seqids = {}
+    # the same for transcript ids
+    transcript_seqids = {}
     corrected_gtf = ""
 
     gtf_name = os.path.basename(gtf)
@@ -258,6 +260,20 @@ def check_gtf_duplicates(gtf):
                 transcript_ids[transcript_id] = 0
         elif transcript_id in transcript_ids and transcript_ids[transcript_id] > 0:
             transcript_id += ".%d" % transcript_ids[transcript_id]
+
+        # a transcript id names one transcript: records with the same id on another sequence (possibly under different gene
+        # ids, e.g. after the gene was renamed per sequence above) would become children of a single (inferred) transcript
+        # record, which is then reported once per gene with the exons of both sequences
+        if feature_type != "gene":
+            seqids = transcript_seqids.setdefault(transcript_id, [])
+            if v[0] not in seqids:
+                seqids.append(v[0])
+                if len(seqids) > 1:
+                    logger.warning("Transcript id %s is used on several sequences (%s), line %d" %
+                                   (transcript_id, ", ".join(seqids), line_count))
+                    gtf_correct = False
+            if seqids.index(v[0]) > 0:
+                transcript_id += ".%s" % v[0]
 
         if gene_id == transcript_id:
             logger.warning("Transcript id and gene id are identical (%s) at line %d"  % (transcript_id, line_count))
